@@ -20,10 +20,16 @@ EXPLANATION = (
     "increments) ++ [N]. R7 sibling agreement: the label route (map_cycle_to_samples_augmented) and the slice-cache "
     "route (augment_slice) delimit the augmented cycle by the same range and return None under the same condition. "
     "R8: a possibly-None extent never indexes the value vectors unguarded (x[None] is the whole recording). "
+    "R9 dispatch: compute_cycle_metric stores, per mode x cache state, the matching support routine on (vals, the "
+    "object's own labels or the cache known to be present, func=func); compute_chain_metric stores the per-chain "
+    "statistic on the own chain/subset/label vectors projected onto cycles, NaN recoded to -1 before a cast; "
+    "add_cycle_metric stores the values as given or recoded/cast as requested; chain_ind is 0..max projected with the "
+    "vectors just stored. R10: every attribute a container method reads is bound on every constructor path and "
+    "before the constructor's own method calls that need it. "
     "Not decided: equality of arbitrary user functions under cache on/off; the history "
     "quantifier beyond 'each operation preserves R4'.")
 RULE_TEXT = "one obligation per operator x literal prefix, per counter clause, per metric store, per cache clause"
-FLOORS = {'C15.R1': 30, 'C15.R2': 2, 'C15.R3': 5, 'C15.R4': 2, 'C15.R5': 3, 'C15.R6': 1, 'C15.R7': 1, 'C15.R8': 2}
+FLOORS = {'C15.R1': 30, 'C15.R2': 2, 'C15.R3': 5, 'C15.R4': 2, 'C15.R5': 3, 'C15.R6': 1, 'C15.R7': 1, 'C15.R8': 2, 'C15.R9': 5, 'C15.R10': 1}
 PINNED_EXPECT = [('C15.R5', 'emd.cycles.get_cycle_vector', 'last boundary'),
                  ('C15.R7', 'emd._cycles_support.map_cycle_to_samples_augmented', 'augmented extent'),
                  ('C15.R8', 'emd._cycles_support.get_augmented_cycle_stat_from_samples', 'possibly-None'),
@@ -42,6 +48,9 @@ def run(ctx):
     ctx.rule(rule_recompute, 'C15.R6')
     ctx.rule(rule_augmented_routes, 'C15.R7')
     ctx.rule(rule_none_extent, 'C15.R8')
+    ctx.rule(rule_dispatch, 'C15.R9')
+    ctx.rule(rule_chain_position, 'C15.R9')
+    ctx.rule(rule_initialised, 'C15.R10')
 
 
 # ----------------------------------------------------------------------------------------------
@@ -340,6 +349,10 @@ def rule_counters(ctx, rid):
                         rel = 'new'
                     elif cn[1] == '>=' and cn[3] == C(2) and truth:
                         rel = 'new'
+            if rel is not None and not stores:
+                n += 1
+                bad = 'a selected cycle whose index gap is %s gets no chain label (it keeps the initial -1)' % (
+                    '1' if rel == 'same' else '> 1')
             for eff in stores:
                 n += 1
                 val = eff[3]
@@ -737,3 +750,475 @@ def rule_none_extent(ctx, rid):
             ctx.undecided(rid, fi, c, 'no indexing by a per-cycle extent found')
         else:
             ctx.passed(rid, fi, c, '%d guarded indexing site state(s)' % nsub)
+
+
+# ----------------------------------------------------------------------------------------------
+# C15.R9: the container methods hand exactly the object's own vectors to the support routines
+def _self_attr(name):
+    return ('attr', S('self'), name)
+
+
+def _strip_cast(t):
+    """value under .astype(...) / .copy() wrappers -> (value, cast dtype term or None)"""
+    cast = None
+    while t[0] == 'meth' and t[1] in ('astype', 'copy'):
+        if t[1] == 'astype':
+            cast = t[3][0] if t[3] else dict(t[4]).get('dtype')
+        t = t[2]
+    return t, cast
+
+
+def _strip_recode(t):
+    """X{[isnan(X)] := v} -> (X, v) ; else (t, None)"""
+    if t[0] == 'setitem':
+        base, idx, v = t[1], t[2], t[3]
+        if idx[0] == 'call' and idx[1] == 'numpy.isnan' and idx[2] and _strip_cast(idx[2][0])[0] == _strip_cast(base)[0]:
+            return base, v
+    return t, None
+
+
+def _stored_call(e, names):
+    """the (single) call effect of exit e to one of the container's storing methods -> bound keyword dict"""
+    out = []
+    for eff in e.state.effects:
+        if eff[0] == 'expr' and eff[1][0] == 'call' and eff[1][1] in names:
+            out.append(dict(eff[1][3]))
+    return out
+
+
+def _cond_truth(e, pred):
+    for cd, truth, ln in e.state.conds:
+        r = pred(cd)
+        if r is not None:
+            return truth if r else (not truth)
+    return None
+
+
+def _is_none_test(cd, what):
+    """cd is `what is None` -> True, `what is not None` -> False, else None"""
+    if cd[0] == 'cmp' and cd[2] == what and cd[3] == NONE and cd[1] in ('is', 'isnot', '==', '!='):
+        return cd[1] in ('is', '==')
+    return None
+
+
+def rule_dispatch(ctx, rid):
+    P = ctx.P
+    ADD = ('emd.cycles.Cycles.add_cycle_metric', 'emd.cycles.Cycles._safe_add_metric')
+    # ---- compute_cycle_metric
+    fi = P.func('emd.cycles.Cycles.compute_cycle_metric')
+    c = 'per mode x cache state the stored metric is the matching support routine on (vals, own labels / cache, func)'
+    bad = None
+    seen = set()
+    for mode in ('cycle', 'augmented'):
+        exits = Evaluator(P).run(fi, context={'mode': mode})
+        ctx.paths += len(exits)
+        cache = _self_attr('_slice_cache' if mode == 'cycle' else '_slice_cache_aug')
+        for e in exits:
+            if bad:
+                break
+            if e.kind != 'return':
+                bad = (e, "mode='%s' raises" % mode)
+                break
+            calls = _stored_call(e, ADD)
+            if len(calls) != 1:
+                bad = (e, "mode='%s': a path stores %d metrics" % (mode, len(calls)))
+                break
+            kw = calls[0]
+            if kw.get('name') != S('name'):
+                bad = (e, "mode='%s': stored under %s" % (mode, show(kw.get('name', NONE))))
+                break
+            v, cast = _strip_cast(kw.get('cycle_vals', kw.get('vals', NONE)))
+            dt_none = _cond_truth(e, lambda cd: _is_none_test(cd, S('dtype')))
+            outer_dt = kw.get('dtype', NONE)
+            if dt_none is False and cast != S('dtype') and outer_dt != S('dtype'):
+                bad = (e, "mode='%s': a requested dtype is not applied" % mode)
+                break
+            if dt_none is True and (cast is not None and cast != NONE or outer_dt not in (NONE, S('dtype'))):
+                bad = (e, "mode='%s': dtype=None but the metric is cast to %s" % (mode, show(cast or outer_dt)))
+                break
+            if v[0] != 'call' or not v[1].startswith(CSUP):
+                ctx.undecided(rid, fi, c, "mode='%s': stored value is %s" % (mode, show(v)[:80]))
+                return
+            a = dict(v[3])
+            cache_none = _cond_truth(e, lambda cd: _is_none_test(cd, cache))
+            r = v[1][len(CSUP):]
+            if a.get('vals') != S('vals') or a.get('func') != S('func'):
+                bad = (e, "mode='%s': %s is not applied to (vals, func=func): vals=%s func=%s"
+                       % (mode, r, show(a.get('vals', NONE))[:40], show(a.get('func', S('<default np.mean>')))[:40]))
+                break
+            if r == 'get_slice_stat_from_samples':
+                if a.get('slices') != cache:
+                    bad = (e, "mode='%s' reads %s" % (mode, show(a.get('slices', NONE))[:50]))
+                elif cache_none is not False:
+                    bad = (e, "mode='%s': the slice route is taken although %s %s"
+                           % (mode, show(cache), 'is None' if cache_none else 'may be None'))
+            elif r == 'get_cycle_stat_from_samples' and mode == 'cycle':
+                if a.get('cycle_vect') != _self_attr('cycle_vect'):
+                    bad = (e, "mode='cycle': labels are %s" % show(a.get('cycle_vect', NONE))[:50])
+            elif r == 'get_augmented_cycle_stat_from_samples' and mode == 'augmented':
+                if a.get('cycle_vect') != _self_attr('cycle_vect') or a.get('phase') != _self_attr('phase'):
+                    bad = (e, "mode='augmented': labels / phase are %s / %s"
+                           % (show(a.get('cycle_vect', NONE))[:40], show(a.get('phase', NONE))[:40]))
+            else:
+                bad = (e, "mode='%s' computes %s" % (mode, r))
+            seen.add((mode, cache_none))
+    if bad:
+        ctx.violation(rid, fi, c, bad[1], node=bad[0].node, path=trace_tail(bad[0].state, 6))
+    else:
+        ctx.passed(rid, fi, c, '%d mode x cache states' % len(seen))
+    # ---- compute_chain_metric
+    fi = P.func('emd.cycles.Cycles.compute_chain_metric')
+    c = 'a chain metric is the per-chain statistic on the own chain / subset / label vectors, projected onto cycles'
+    want_stat = {'vals': S('vals'), 'chain_vect': _self_attr('chain_vect'), 'subset_vect': _self_attr('subset_vect'),
+                 'cycle_vect': _self_attr('cycle_vect'), 'func': S('func')}
+    bad = None
+    n = 0
+    for e in Evaluator(P).run(fi):
+        ctx.paths += 1
+        if e.kind != 'return':
+            continue
+        n += 1
+        calls = _stored_call(e, ADD)
+        if len(calls) != 1:
+            bad = (e, 'a path stores %d metrics' % len(calls))
+            break
+        kw = calls[0]
+        if kw.get('name') != S('name'):
+            bad = (e, 'stored under %s' % show(kw.get('name', NONE)))
+            break
+        v, cast = _strip_cast(kw.get('cycle_vals', kw.get('vals', NONE)))
+        v, rec = _strip_recode(v)
+        outer_dt = kw.get('dtype', NONE)
+        dt_none = _cond_truth(e, lambda cd: _is_none_test(cd, S('dtype')))
+        if dt_none is False:
+            if cast != S('dtype') and outer_dt != S('dtype'):
+                bad = (e, 'a requested dtype is not applied')
+                break
+            if cast == S('dtype') and rec != C(-1):
+                bad = (e, 'cycles outside every chain (NaN) are %s before the cast to the requested dtype '
+                       '(-1 marks "not in a chain" in integer metrics; casting NaN to an integer is undefined)'
+                       % ('not recoded' if rec is None else 'recoded to %s' % show(rec)))
+                break
+        if dt_none is True and (cast not in (None, NONE) or rec is not None):
+            bad = (e, 'dtype=None but the metric is %s' % ('cast' if cast else 'recoded'))
+            break
+        if v[0] == 'call' and v[1] == CSUP + 'get_chain_stat_from_samples':
+            bad = (e, 'the per-chain values are stored without projection onto cycles (one entry per chain, not per cycle)')
+            break
+        if not (v[0] == 'call' and v[1] == CSUP + 'project_chain_to_cycles'):
+            ctx.undecided(rid, fi, c, 'stored value is %s' % show(v)[:80])
+            return
+        a = dict(v[3])
+        st = a.get('vals', NONE)
+        if a.get('chain_vect') != want_stat['chain_vect'] or a.get('subset_vect') != want_stat['subset_vect']:
+            bad = (e, 'projected with %s / %s' % (show(a.get('chain_vect', NONE))[:40], show(a.get('subset_vect', NONE))[:40]))
+            break
+        if not (st[0] == 'call' and st[1] == CSUP + 'get_chain_stat_from_samples'):
+            bad = (e, 'the projected values are %s' % show(st)[:80])
+            break
+        sa = dict(st[3])
+        diff = [k for k in want_stat if sa.get(k) != want_stat[k]]
+        if diff:
+            bad = (e, 'per-chain statistic called with %s' % ', '.join('%s=%s' % (k, show(sa.get(k, S('<default>')))[:30]) for k in diff))
+            break
+    if bad:
+        ctx.violation(rid, fi, c, bad[1], node=bad[0].node, path=trace_tail(bad[0].state, 6))
+    elif n == 0:
+        ctx.undecided(rid, fi, c, 'no storing path')
+    else:
+        ctx.passed(rid, fi, c, '%d storing paths' % n)
+    # ---- add_cycle_metric
+    fi = P.func('emd.cycles.Cycles.add_cycle_metric')
+    c = 'an added metric is stored as given (dtype=None), or recoded NaN -> -1 (int) and cast to the requested dtype'
+    bad = None
+    n = 0
+    INT = ('ref', 'builtins.int')
+    for label, args in (('dtype=None', {'dtype': NONE}), ('dtype=int', {'dtype': INT}), ('dtype=<other>', {'dtype': S('dtype')})):
+        for e in Evaluator(P).run(fi, args=args):
+            ctx.paths += 1
+            calls = _stored_call(e, ADD[1:])
+            direct = [eff for eff in e.state.effects if eff[0] == 'setitem' and eff[1] == _self_attr('metrics')]
+            if e.kind != 'return' or (not calls and not direct):
+                continue    # the length guard
+            if label == 'dtype=<other>' and _cond_truth(e, lambda cd: _is_none_test(cd, S('dtype'))) is not False:
+                continue
+            if any(cd[0] == 'cmp' and cd[1] in ('is', 'isnot', '==', '!=') and cd[2][0] in ('ref', 'c') and cd[3][0] in ('ref', 'c')
+                   and ((cd[2] == cd[3]) == (cd[1] in ('is', '=='))) != tr for cd, tr, ln in e.state.conds):
+                continue    # infeasible for this dtype
+            if label == 'dtype=<other>' and any(cd[0] == 'cmp' and cd[2] == S('dtype') and cd[3] == INT and tr
+                                                for cd, tr, ln in e.state.conds):
+                continue
+            n += 1
+            stored = calls[0].get('vals', NONE) if calls else direct[0][3]
+            v, cast = _strip_cast(stored)
+            v, rec = _strip_recode(v)
+            v, _ = _strip_cast(v)
+            if v != S('cycle_vals'):
+                bad = (e, '%s: the stored metric is %s' % (label, show(stored)[:80]))
+            elif label == 'dtype=None' and (cast not in (None, NONE) or rec is not None):
+                bad = (e, 'dtype=None: the metric is %s before it is stored' % ('recoded' if rec is not None else 'cast to %s' % show(cast)))
+            elif label != 'dtype=None' and cast != args['dtype']:
+                bad = (e, '%s: the requested dtype is not applied (stored %s)' % (label, show(stored)[:60]))
+            elif label == 'dtype=int' and rec != C(-1):
+                bad = (e, 'dtype=int: NaN entries are %s before the integer cast (-1 marks a missing value in integer '
+                       'metrics; casting NaN to an integer is undefined)' % ('not recoded' if rec is None else 'recoded to %s' % show(rec)))
+            if bad:
+                break
+        if bad:
+            break
+    if bad:
+        ctx.violation(rid, fi, c, bad[1], node=bad[0].node, path=trace_tail(bad[0].state, 6))
+    elif n < 3:
+        ctx.undecided(rid, fi, c, '%d storing paths' % n)
+    else:
+        ctx.passed(rid, fi, c, '%d storing paths' % n)
+    # ---- pick_cycle_subset: chain index per cycle
+    fi = P.func('emd.cycles.Cycles.pick_cycle_subset')
+    c = "chain_ind is the chain number 0..max projected onto cycles with the new chain and subset vectors"
+    bad = None
+    n = 0
+    for e in Evaluator(P).run(fi):
+        if e.kind != 'return':
+            continue
+        cv = e.state.env.get('self.chain_vect')
+        sv = e.state.env.get('self.subset_vect')
+        for kw in _stored_call(e, ADD):
+            if kw.get('name') != C('chain_ind'):
+                continue
+            n += 1
+            v, cast = _strip_cast(kw.get('cycle_vals', NONE))
+            if kw.get('dtype', cast) != INT and cast != INT:
+                bad = (e, 'chain_ind is not stored as an integer metric (dtype=%s)' % show(kw.get('dtype', NONE)))
+                break
+            if not (v[0] == 'call' and v[1] == CSUP + 'project_chain_to_cycles'):
+                ctx.undecided(rid, fi, c, 'chain_ind is %s' % show(v)[:80])
+                return
+            a = dict(v[3])
+            if a.get('chain_vect') != cv or a.get('subset_vect') != sv or cv is None or sv is None:
+                bad = (e, 'chain_ind is projected with vectors other than the ones just stored')
+                break
+            nums = a.get('vals', NONE)
+            mx = [('meth', 'max', cv, (), ()), ('call', 'numpy.max', (cv,), ()), ('call', 'builtins.max', (cv,), ())]
+            stops = [('bin', '+', m, C(1)) for m in mx] + [('bin', '+', C(1), m) for m in mx]
+            okn = nums[0] == 'call' and nums[1] == 'numpy.arange' and not nums[3] and (
+                (len(nums[2]) == 1 and nums[2][0] in stops) or (len(nums[2]) == 2 and nums[2][0] == C(0) and nums[2][1] in stops))
+            if not okn:
+                if nums[0] == 'call' and nums[1] == 'numpy.arange':
+                    bad = (e, 'chain numbers are %s (expected 0 .. chain_vect.max())' % show(nums)[:80])
+                    break
+                ctx.undecided(rid, fi, c, 'chain numbers are %s' % show(nums)[:80])
+                return
+    if bad:
+        ctx.violation(rid, fi, c, bad[1], node=bad[0].node, path=trace_tail(bad[0].state, 6))
+    elif n == 0:
+        ctx.undecided(rid, fi, c, 'no chain_ind store found')
+    else:
+        ctx.passed(rid, fi, c, '%d path(s)' % n)
+
+
+# ----------------------------------------------------------------------------------------------
+# C15.R10: the container's state is completely initialised (every attribute a method reads is bound by the
+# constructor on every path, and before the constructor itself calls a method that reads it)
+def _attr_reads(P, cls='Cycles', mod='emd.cycles'):
+    m = P.module(mod)
+    methods = {q.split('.', 1)[1]: fi for q, fi in m.functions.items() if q.startswith(cls + '.') and q.count('.') == 1}
+    direct, calls, writes = {}, {}, {}
+    for name, fi in methods.items():
+        rd, cl, wr = set(), set(), set()
+        for n in ast.walk(fi.node):
+            if isinstance(n, ast.Attribute) and isinstance(n.value, ast.Name) and n.value.id == 'self':
+                if isinstance(n.ctx, ast.Load):
+                    (cl if n.attr in methods else rd).add(n.attr)
+                else:
+                    wr.add(n.attr)
+        direct[name], calls[name], writes[name] = rd, cl, wr
+    # attributes a method reads before (possibly) writing them itself are approximated by: read and not written first
+    # in straight-line order; precise enough here: take reads that are not dominated by a write in the same method
+    for name, fi in methods.items():
+        first = {}
+        for n in ast.walk(fi.node):
+            if isinstance(n, ast.Attribute) and isinstance(n.value, ast.Name) and n.value.id == 'self' \
+                    and n.attr not in methods:
+                k = (n.lineno, n.col_offset)
+                if n.attr not in first or k < first[n.attr][0]:
+                    first[n.attr] = (k, isinstance(n.ctx, ast.Load))
+        direct[name] = {a for a in direct[name] if first[a][1] or _in_aug(fi.node, a)}
+    wtrans = {}
+
+    def wclose(name, seen):
+        if name in seen:
+            return set()
+        out = set(writes[name])
+        for c in calls[name]:
+            out |= wclose(c, seen | {name})
+        return out
+    for name in methods:
+        wtrans[name] = wclose(name, frozenset())
+    _attr_reads.writes = wtrans
+    trans = {}
+
+    def close(name, seen):
+        if name in trans:
+            return trans[name]
+        if name in seen:
+            return set()
+        out = set(direct[name])
+        for c in calls[name]:
+            out |= close(c, seen | {name})
+        return out
+    for name in methods:
+        trans[name] = close(name, frozenset())
+    return methods, trans
+
+
+def _in_aug(fnode, attr):
+    for n in ast.walk(fnode):
+        if isinstance(n, ast.AugAssign) and isinstance(n.target, ast.Attribute) and n.target.attr == attr:
+            return True
+    return False
+
+
+def rule_initialised(ctx, rid):
+    P = ctx.P
+    methods, reads = _attr_reads(P)
+    init = P.func('emd.cycles.Cycles.__init__')
+    maywrite = _attr_reads.writes
+    cls_names = set(methods)
+    for st_ in P.module('emd.cycles').classes['Cycles'].body:
+        if isinstance(st_, (ast.Assign, ast.AnnAssign)):
+            for t in (st_.targets if isinstance(st_, ast.Assign) else [st_.target]):
+                if isinstance(t, ast.Name):
+                    cls_names.add(t.id)
+    problems = []
+
+    def bound(st):
+        return {k[5:] for k in st.env if k.startswith('self.')}
+
+    def hook(ca, bnd, star, st, e):
+        d = ca.dotted or ''
+        if d.startswith('emd.cycles.Cycles.') and d.count('.') == 3:
+            name = d.rsplit('.', 1)[1]
+            miss = sorted(reads.get(name, set()) - bound(st) - cls_names)
+            if miss:
+                problems.append((e, 'the constructor calls %s() before binding self.%s' % (name, ', self.'.join(miss))))
+            for a in maywrite.get(name, ()):
+                st.env.setdefault('self.' + a, S('self.%s@%s' % (a, name)))     # bound by the helper method
+        return None
+    exits = Evaluator(P, callee_hook=hook).run(init)
+    ctx.paths += len(exits)
+    allreads = set()
+    for name, r in reads.items():
+        if name != '__init__':
+            allreads |= r
+    n = 0
+    for e in exits:
+        if e.kind != 'return':
+            continue
+        n += 1
+        miss = sorted(allreads - bound(e.state) - cls_names)
+        if miss:
+            conds = '; '.join('%s=%s' % (show(cd)[:30], t) for cd, t, ln in e.state.conds)
+            problems.append((e.node, 'a constructor path (%s) leaves self.%s unbound although methods read it'
+                             % (conds or 'unconditional', ', self.'.join(miss))))
+    c = 'every attribute the methods read is bound on every constructor path, before the first method call needing it'
+    if problems:
+        node, msg = problems[0]
+        ctx.violation(rid, init, c, msg + ' (AttributeError instead of a result, e.g. with the slice cache turned off)',
+                      node=node if hasattr(node, 'lineno') else None)
+    elif n == 0:
+        ctx.undecided(rid, init, c, 'no returning constructor path')
+    else:
+        ctx.passed(rid, init, c, '%d constructor paths, %d attributes read by %d methods' % (n, len(allreads), len(methods)))
+
+
+def rule_chain_position(ctx, rid):
+    """compute_position_in_chain: for every chain number 0..max the members of that chain (in order) get positions
+    0, 1, 2, ...; the result is projected from the subset onto cycles, non-members recoded to -1, stored as integers."""
+    P = ctx.P
+    fi = P.func('emd.cycles.Cycles.compute_position_in_chain')
+    c = "chain_position numbers the members of every chain 0, 1, 2, ... and is projected from the subset onto cycles"
+    exits = [e for e in Evaluator(P).run(fi) if e.kind == 'return']
+    ctx.paths += len(exits)
+    cv = _self_attr('chain_vect')
+    INT = ('ref', 'builtins.int')
+    if not exits:
+        ctx.undecided(rid, fi, c, 'no returning path')
+        return
+    bad = None
+    for e in exits:
+        stored = None
+        for eff in e.state.effects:
+            if eff[0] == 'setitem' and eff[1] == _self_attr('metrics') and eff[2] == C('chain_position'):
+                stored = eff[3]
+        for kw in _stored_call(e, ('emd.cycles.Cycles.add_cycle_metric', 'emd.cycles.Cycles._safe_add_metric')):
+            if kw.get('name') == C('chain_position'):
+                stored = kw.get('cycle_vals', kw.get('vals'))
+                if kw.get('dtype') == INT:
+                    stored = ('meth', 'astype', ('setitem', stored, ('call', 'numpy.isnan', (stored,), ()), C(-1)), (INT,), ())
+        if stored is None:
+            bad = (e, "a returning path does not store the 'chain_position' metric")
+            break
+        v, cast = _strip_cast(stored)
+        v, rec = _strip_recode(v)
+        if cast != INT:
+            bad = (e, 'chain_position is not stored as an integer metric')
+            break
+        if rec != C(-1):
+            bad = (e, 'cycles outside the subset (NaN after projection) are %s before the integer cast'
+                   % ('not recoded' if rec is None else 'recoded to %s, not -1' % show(rec)))
+            break
+        if not (v[0] == 'call' and v[1] == CSUP + 'project_subset_to_cycles'):
+            ctx.undecided(rid, fi, c, 'stored value is %s' % show(v)[:80])
+            return
+        a = dict(v[3])
+        if a.get('subset_vect') != _self_attr('subset_vect'):
+            bad = (e, 'projected with %s instead of the subset vector' % show(a.get('subset_vect', NONE))[:40])
+            break
+        arr = a.get('vals', NONE)
+        loops = [ls for ls in e.state.loops if ls.kind == 'for']
+        if len(loops) != 1:
+            ctx.undecided(rid, fi, c, '%d loops' % len(loops))
+            return
+        ls = loops[0]
+        mx = [('meth', 'max', cv, (), ()), ('call', 'numpy.max', (cv,), ()), ('call', 'builtins.max', (cv,), ())]
+        stops = [('bin', '+', m, C(1)) for m in mx] + [('bin', '+', C(1), m) for m in mx]
+        it = ls.iter_term
+        if not (it[0] == 'call' and it[1] == 'builtins.range' and not it[3]):
+            ctx.undecided(rid, fi, c, 'loop over %s' % show(it)[:60])
+            return
+        # a longer range only adds iterations with no member (harmless); a shorter one loses chains
+        stops += [('bin', '+', m, C(k)) for m in mx for k in range(2, 6)]
+        if not ((len(it[2]) == 1 and it[2][0] in stops) or (len(it[2]) == 2 and it[2][0] == C(0) and it[2][1] in stops)):
+            bad = (e, 'the loop visits chains %s, not 0 .. chain_vect.max()' % show(it)[:60])
+            break
+        members = ('sub', ('call', 'numpy.where', (('cmp', '==', cv, ls.var),), ()), C(0))
+        members2 = ('sub', ('call', 'numpy.where', (('cmp', '==', ls.var, cv),), ()), C(0))
+        for kind, b in ls.body_states:
+            sets = [eff for eff in b.effects if eff[0] == 'setitem']
+            if len(sets) != 1 or kind not in ('back', 'continue'):
+                bad = (e, 'an iteration of the chain loop writes %d times / leaves by %s' % (len(sets), kind))
+                break
+            eff = sets[0]
+            if arr[0] != 's' or not str(arr[1]).startswith(str(eff[1][1]).split('@')[0] + '@'):
+                bad = (e, 'the loop fills %s but %s is projected' % (show(eff[1])[:30], show(arr)[:30]))
+                break
+            idx, val = eff[2], eff[3]
+            if idx not in (members, members2):
+                if idx[0] == 'sub' and idx[1][0] == 'call' and idx[1][1] == 'numpy.where':
+                    bad = (e, 'positions are written at %s, not at the members of chain %s' % (show(idx)[:70], show(ls.var)))
+                    break
+                ctx.undecided(rid, fi, c, 'members selected by %s' % show(idx)[:70])
+                return
+            want = [('call', 'numpy.arange', (('call', 'builtins.len', (idx,), ()),), ()),
+                    ('call', 'numpy.arange', (C(0), ('call', 'builtins.len', (idx,), ())), ()),
+                    ('call', 'numpy.arange', (('attr', idx, 'size'),), ()),
+                    ('call', 'numpy.arange', (('sub', ('attr', idx, 'shape'), C(0)),), ())]
+            if val not in want:
+                bad = (e, 'members of a chain get %s, not 0, 1, 2, ...' % show(val)[:70])
+                break
+        if bad:
+            break
+    if bad:
+        ctx.violation(rid, fi, c, bad[1], node=bad[0].node, path=trace_tail(bad[0].state, 6))
+    else:
+        ctx.passed(rid, fi, c, '%d path(s)' % len(exits))
